@@ -151,6 +151,36 @@ pub fn instr_round_trip<const N: usize>(fmt: &dyn InstrFormat, stored: Stored, e
     core::mem::forget(emitter);
 }
 
+/// C13 ("the time stored on each emitted instruction equals the value defined by the label rules"):
+/// the last step of that chain is the header writer. If write_instr accepts an instruction, the time
+/// read back from the written bytes is the requested time (for every i32 time; a time that does not
+/// fit the format's field must be rejected). Only the time is asserted here - the other fields
+/// belong to C03.
+pub fn instr_time_is_stored<const N: usize>(fmt: &dyn InstrFormat, stored: Stored, extra_assume: impl Fn(&RawInstr) -> bool) {
+    let emitter = noop_emitter();
+    let blob: [u8; N] = kani::any();
+    let instr = arb_header(stored, blob.to_vec());
+    kani::assume(extra_assume(&instr));
+    let mut w = BinWriter::from_writer(&emitter, "x", std::io::Cursor::new(Vec::<u8>::with_capacity(N + 24)));
+    if let Err(e) = fmt.write_instr(&mut w, &emitter, &instr) {
+        core::mem::forget(e); core::mem::forget(w); core::mem::forget(instr); core::mem::forget(emitter);
+        return;
+    }
+    vcover!(true, "the writer accepts some instruction");
+    let bytes: Vec<u8> = w.into_inner().into_inner();
+    let mut r = BinReader::from_reader(&emitter, "x", std::io::Cursor::new(bytes));
+    match fmt.read_instr(&mut r, &emitter) {
+        Ok(ReadInstr::Instr(i2)) | Ok(ReadInstr::MaybeTerminal(i2)) => {
+            assert!(i2.time == instr.time, "stored time differs from the time the labels define");
+            core::mem::forget(i2);
+        },
+        Ok(_) => {},     // marker clashes are C03's business (known finding for TH06 timelines)
+        Err(e) => { core::mem::forget(e); },
+    }
+    core::mem::forget(instr);
+    core::mem::forget(emitter);
+}
+
 /// How the size field is stored: byte offset, width, and what it counts.
 #[derive(Copy, Clone)]
 pub struct SizeField { pub offset: usize, pub width: usize, pub counts_header: bool, pub reader_max: usize }
